@@ -273,10 +273,11 @@ def run(tier):
     smt.reset_stats()
     progs = programs(tier)
     jobs = [(p[0], p[1], size) + tuple(p[2:3]) for p in progs for size in (32, 40)]
+    jobs += [(p[0] + ":size16", p[1], 16) for p in progs if p[0] in ("single", "two-runs-one-line")]  # a size below BASIC09's 32
     # the bundle does not depend on whether the standard prologue / the error-handler suffix is emitted (the prologue is the
     # only RUN of many programs' output; without it the program's own calls are all there is)
     jobs += [(p[0] + ":" + variant, p[1], 40, None, variant) for p in progs if p[0] in ("single", "two-runs-one-line", "text-run-in-string", "text-run-in-comment") for variant in ("noprefix", "nosuffix", "bare")]
-    ctx.bounds.update({"programs": len(progs), "sizes": [32, 40], "options": OPTS, "option_variants": ["full", "noprefix", "nosuffix", "bare (single-statement programs)"]})
+    ctx.bounds.update({"programs": len(progs), "sizes": [32, 40, 16], "options": OPTS, "option_variants": ["full", "noprefix", "nosuffix", "bare (single-statement programs)"]})
     for rel in ("coco/b09/procbank.py", "coco/b09/compiler.py"):
         ctx.encode(rel + " (executed: real convert())", repo_source(rel))
     ctx.encode("coco/resources/ecb.b09", tvlib.library_text())
